@@ -39,6 +39,10 @@ class Prop:
     def expand(self, task: Dict[str, Any]) -> List[Dict[str, Any]]:
         return [task]
 
+    def post(self, results: List[Dict[str, Any]], seed: int) -> List[Dict[str, Any]]:
+        """Engine-side checks over the gathered task results (cross-task history checks)."""
+        return []
+
     def cost(self, adapter: Any, cfg: Dict[str, Any]) -> float:
         return 1.0
 
